@@ -15,6 +15,7 @@ import (
 	"time"
 
 	"github.com/cossacklabs/acra/decryptor/base"
+	"github.com/jackc/pgx/v5/pgproto3"
 	"github.com/sirupsen/logrus"
 
 	"verif/sched"
@@ -90,13 +91,13 @@ func ReadMyPacket(c net.Conn) (MyPacket, error) {
 	return p, nil
 }
 
-// MySchedSession is one session whose pumps are scheduler threads.
+// MySchedSession is one session whose pumps are scheduler threads (either proxy).
 type MySchedSession struct {
 	AppEnd *SchedConn // harness end playing the application
 	DBEnd  *SchedConn // harness end playing the database
 	// Quiet suppresses the scheduling points of writes while true (set it during the connection
 	// phase, clear it when the explored part of the script begins)
-	Quiet bool
+	Quiet  bool
 	Panics []string
 	Errors []string
 }
@@ -106,6 +107,19 @@ type MySchedSession struct {
 // and database threads itself and must close both harness ends at the end of its script (the pumps
 // then see EOF and finish).
 func NewMySchedSession(env *MyEnv, clientID []byte, s *sched.Scheduler) (*MySchedSession, error) {
+	return newSchedSession(env.Factory, clientID, s)
+}
+
+// NewPGSchedSession is the same for the PostgreSQL proxy.
+func NewPGSchedSession(env *PGEnv, clientID []byte, s *sched.Scheduler) (*MySchedSession, error) {
+	return newSchedSession(env.Factory, clientID, s)
+}
+
+// CloneBackendMsg encodes a backend message and decodes it into a fresh value (harness threads
+// keep messages beyond the codec's next Receive).
+func CloneBackendMsg(m pgproto3.BackendMessage) (Msg, error) { return cloneBackend(m) }
+
+func newSchedSession(factory base.ProxyFactory, clientID []byte, s *sched.Scheduler) (*MySchedSession, error) {
 	app, cliProxy := SchedPipe("app", "proxy-client")
 	dbProxy, db := SchedPipe("proxy-db", "database")
 	cs := &clientSession{c: cliProxy, d: dbProxy, data: map[string]interface{}{}}
@@ -113,7 +127,7 @@ func NewMySchedSession(env *MyEnv, clientID []byte, s *sched.Scheduler) (*MySche
 	ctx = loggingCtx(ctx, logrus.StandardLogger())
 	ctx = base.SetClientSessionToContext(ctx, cs)
 	cs.ctx = ctx
-	proxy, err := env.Factory.New(clientID, cs)
+	proxy, err := factory.New(clientID, cs)
 	if err != nil {
 		return nil, err
 	}
